@@ -112,6 +112,8 @@ def render_lines(lines, style):
                 out.append(f"{dotted(ln['host'])} {ln['dtype']}{dims_text(ln['shape'])} = {rhs}")
             else:
                 out.append(f"{dotted(ln['host'])} = {rhs}")
+        elif k == "cmp":
+            out.append(f'{dotted(ln["host"])} bool = ("{{?{dotted(ln["l"])}}} {ln["op"]} {{?{dotted(ln["r"])}}}")')
         elif k == "imp":
             h = ln["host"]
             if ln["form"] == "inline":
